@@ -436,32 +436,38 @@ theorem writeAll_run {id : Nat} (r : AReq) (data : Bytes) (rest : List HOp) (pr 
 
 /-- What `handlerPoll` does for `readAll` on a quiet stream: it suspends on a transient `Pending` of
 the transport with the bytes read so far in its accumulator, or completes with exactly the rest of
-the stream content appended, the parser standing at the end mark. -/
-theorem readAll_run {E : Str.Env} (rest : List HOp) (ws : List (Option Writer)) (pr : Bool) :
-    ∀ (N fuel : Nat) (r : AReq) (sub : HSub) (e : Run.Env) (remC : Bytes),
-      remC.length < N → N + 1 ≤ fuel → Ben e.tr → RInv E r e.tr.input remC →
+the stream content appended, the parser standing at the end mark.
+
+Fuel: a `read` into the 64-byte buffer returns 64 bytes, or leaves the parser drained (then the next
+one must first get at least one byte from the transport), or reaches the end of the stream; so the
+number of `read`s in one poll is at most `2·⌊|remC|/64⌋ + 2·|input| + d + 1` (`d = 0` if the
+parser is known to be drained). -/
+theorem readAll_run {K : RCtx} (rest : List HOp) (ws : List (Option Writer)) (pr : Bool) :
+    ∀ (N fuel : Nat) (r : AReq) (sub : HSub) (e : Run.Env) (remC : Bytes) (d : Nat),
+      2 * (remC.length / 64) + 2 * e.tr.input.length + d < N → N + 1 ≤ fuel →
+      (d = 0 → Drained r.sp ∨ remC = []) → Ben e.tr → RInv K r e.tr.input remC →
       (∃ (r' : AReq) (acc' : Bytes) (e' : Run.Env) (remC' : Bytes),
           handlerPoll fuel r { ops := .readAll :: rest, sub := sub, writers := ws, propagate := pr } e =
             (r', { ops := .readAll :: rest, sub := .readAllAcc acc', writers := ws, propagate := pr }, e', .pending) ∧
-          acc' ++ remC' = accOf sub ++ remC ∧ RInv E r' e'.tr.input remC' ∧
+          acc' ++ remC' = accOf sub ++ remC ∧ RInv K r' e'.tr.input remC' ∧
           e'.mutex = e.mutex ∧ e'.segs = e.segs ∧ TStep e.tr e'.tr ∧ e'.tr.wlog = e.tr.wlog ∧
           e'.tr.woken = true ∧ ans e'.tr < ans e.tr) ∨
       (∃ (r' : AReq) (e' : Run.Env) (fuel' : Nat),
           handlerPoll fuel r { ops := .readAll :: rest, sub := sub, writers := ws, propagate := pr } e =
             handlerPoll fuel' r' { ops := rest, sub := .fresh, writers := ws, propagate := pr }
               (e'.ev (rEvent (accOf sub ++ remC))) ∧
-          fuel ≤ fuel' + remC.length + 1 ∧ RInv E r' e'.tr.input [] ∧
-          r'.sp.pay = 0 ∧ r'.sp.pad = 0 ∧ r'.sp.raw ++ e'.tr.input = E.tail ∧
+          fuel ≤ fuel' + N ∧ RInv K r' e'.tr.input [] ∧
+          r'.sp.pay = 0 ∧ r'.sp.pad = 0 ∧ r'.sp.raw ++ e'.tr.input = K.E.tail ∧
           e'.mutex = e.mutex ∧ e'.segs = e.segs ∧ TStep e.tr e'.tr ∧ e'.tr.wlog = e.tr.wlog) := by
   intro N
   induction N with
-  | zero => intro fuel r sub e remC hN; omega
+  | zero => intro fuel r sub e remC d hN; omega
   | succ N ih =>
-    intro fuel r sub e remC hN hf hb hi
+    intro fuel r sub e remC d hN hf hd hb hi
     obtain ⟨f, rfl⟩ : ∃ f, fuel = f + 1 := ⟨fuel - 1, by omega⟩
     rw [hp_readAll]
     rcases hpi : r.pollInput (some 64) e.mutex e.tr with ⟨r1, m1, t1, res⟩
-    obtain ⟨s1, s2, s3, s4⟩ := pollInput_sim (by omega : 0 < 64) hb hi hpi
+    obtain ⟨s1, s2, s3, s4, s5⟩ := pollInput_sim (by omega : 0 < 64) hb hi hpi
     subst s3
     cases res with
     | pending =>
@@ -470,42 +476,61 @@ theorem readAll_run {E : Str.Env} (rest : List HOp) (ws : List (Option Writer)) 
         s4.2.1, s4.2.2⟩
     | err x => exact s4.elim
     | panic x => exact s4.elim
-    | ready k d =>
-      obtain ⟨hk, remC', hd, hi', hor⟩ := s4
+    | ready k dd =>
+      obtain ⟨hk, remC', hdd, hi', hor, hfull⟩ := s4
       cases k with
       | zero =>
         right
-        have hd0 : d = [] := List.length_eq_zero_iff.1 hk.symm
+        have hd0 : dd = [] := List.length_eq_zero_iff.1 hk.symm
         subst hd0
         rcases hor with hor | ⟨a1, a2, a3, a4⟩
         · omega
-        · simp only [List.nil_append] at hd
-          subst hd
+        · simp only [List.nil_append] at hdd
+          subst hdd
           subst a1
-          refine ⟨r1, { e with mutex := e.mutex, tr := t1 }, f, ?_, by simp, hi', a2, a3, a4, rfl, rfl, s1, s2⟩
+          refine ⟨r1, { e with mutex := e.mutex, tr := t1 }, f, ?_, by omega, hi', a2, a3, a4, rfl, rfl, s1, s2⟩
           simp only [List.append_nil]
       | succ k' =>
         simp only
-        have hlen : remC'.length < N := by
-          have := congrArg List.length hd
-          simp only [List.length_append] at this
-          omega
-        rcases ih f r1 (.readAllAcc (accOf sub ++ d)) { e with mutex := e.mutex, tr := t1 } remC' hlen
-            (by omega) (hb.step s1) hi' with
-          ⟨r2, acc2, e2, remC2, d1, d2, d3, d4, d5, d6, d7, d8, d9⟩ |
-          ⟨r2, e2, f2, d1, d2, d3, d4, d5, d6, d7, d8, d9, d10⟩
+        have hlenC := congrArg List.length hdd
+        simp only [List.length_append] at hlenC
+        have hinle := s1.tle.input_len
+        -- the new drained flag and the decrease of the measure
+        have hdec : ∃ d1, (d1 = 0 → Drained r1.sp ∨ remC' = []) ∧
+            2 * (remC'.length / 64) + 2 * t1.input.length + d1 < N := by
+          have hin' : d = 0 → t1.input.length < e.tr.input.length := by
+            intro h0
+            rcases hd h0 with hdr | hnil
+            · exact s5 hdr _ _ rfl
+            · have h00 : remC.length = 0 := by rw [hnil]; rfl
+              omega
+          rcases hfull with h64 | hdr | ⟨hnil, _⟩
+          · refine ⟨1, fun h => by omega, ?_⟩
+            by_cases h0 : d = 0
+            · have := hin' h0; omega
+            · omega
+          · refine ⟨0, fun _ => Or.inl hdr, ?_⟩
+            by_cases h0 : d = 0
+            · have := hin' h0; omega
+            · omega
+          · refine ⟨0, fun _ => Or.inr hnil, ?_⟩
+            by_cases h0 : d = 0
+            · have := hin' h0; omega
+            · omega
+        obtain ⟨d1, hd1, hm1⟩ := hdec
+        rcases ih f r1 (.readAllAcc (accOf sub ++ dd)) { e with mutex := e.mutex, tr := t1 } remC' d1 hm1
+            (by omega) hd1 (hb.step s1) hi' with
+          ⟨r2, acc2, e2, remC2, d1', d2, d3, d4, d5, d6, d7, d8, d9⟩ |
+          ⟨r2, e2, f2, d1', d2, d3, d4, d5, d6, d7, d8, d9, d10⟩
         · left
-          refine ⟨r2, acc2, e2, remC2, d1, ?_, d3, d4, d5, s1.trans d6, d7.trans s2, d8, ?_⟩
-          · rw [d2]; simp only [accOf, List.append_assoc, hd]
+          refine ⟨r2, acc2, e2, remC2, d1', ?_, d3, d4, d5, s1.trans d6, d7.trans s2, d8, ?_⟩
+          · rw [d2]; simp only [accOf, List.append_assoc, hdd]
           · have := s1.ans_le
             have d9' : ans e2.tr < ans t1 := d9
             omega
         · right
-          refine ⟨r2, e2, f2, ?_, ?_, d3, d4, d5, d6, d7, d8, s1.trans d9, d10.trans s2⟩
-          · rw [d1]; simp only [accOf, List.append_assoc, hd]
-          · have := congrArg List.length hd
-            simp only [List.length_append] at this
-            omega
+          refine ⟨r2, e2, f2, ?_, by omega, d3, d4, d5, d6, d7, d8, s1.trans d9, d10.trans s2⟩
+          rw [d1']; simp only [accOf, List.append_assoc, hdd]
 
 /-! ## One poll of the canonical handler -/
 
@@ -522,58 +547,58 @@ theorem TStep.mem_events {t t' : Transport} (h : TStep t t') {s : String} (hs : 
 
 /-- The request stands at the end mark of its (quiet) stream: everything was delivered, nothing is
 queued, the terminating record is still unparsed. -/
-structure REnd (E : Str.Env) (r : AReq) (input : Bytes) : Prop where
-  inv : RInv E r input []
+structure REnd (K : RCtx) (r : AReq) (input : Bytes) : Prop where
+  inv : RInv K r input []
   pay : r.sp.pay = 0
   pad : r.sp.pad = 0
-  wire : r.sp.raw ++ input = E.tail
+  wire : r.sp.raw ++ input = K.E.tail
 
 /-- handler suspended in (or about to start) `readAll` -/
-structure HRead (E : Str.Env) (content data : Bytes) (st : ExitStatus) (L1 : Bytes)
+structure HRead (K : RCtx) (content data : Bytes) (st : ExitStatus) (L1 : Bytes)
     (r : AReq) (h : HState) (e : Run.Env) : Prop where
   ops : h.ops = script data st
   ws : h.writers = []
   pr : h.propagate = true
-  rem : ∃ remC, accOf h.sub ++ remC = content ∧ RInv E r e.tr.input remC
+  rem : ∃ remC, accOf h.sub ++ remC = content ∧ RInv K r e.tr.input remC
   mtx : e.mutex = none
   log : e.tr.wlog = L1
 
 /-- handler suspended in (or about to start) `writeAll` -/
-structure HWrite (E : Str.Env) (content data : Bytes) (st : ExitStatus) (L1 : Bytes)
+structure HWrite (K : RCtx) (content data : Bytes) (st : ExitStatus) (L1 : Bytes)
     (r : AReq) (h : HState) (e : Run.Env) : Prop where
   ops : h.ops = wscript data st
   pr : h.propagate = true
-  wr : ∃ w L sent, h.writers = [some w] ∧ WSt E.id w e.mutex (restOf h.sub data) sent ∧
+  wr : ∃ w L sent, h.writers = [some w] ∧ WSt K.E.id w e.mutex (restOf h.sub data) sent ∧
       e.tr.wlog = L ++ sent ∧
-      L ++ streamRecords 6 E.id (restOf h.sub data) = L1 ++ streamRecords 6 E.id data
+      L ++ streamRecords 6 K.E.id (restOf h.sub data) = L1 ++ streamRecords 6 K.E.id data
   len : (restOf h.sub data).length ≤ data.length
-  fin : REnd E r e.tr.input
+  fin : REnd K r e.tr.input
   ev : rEvent content ∈ e.tr.events
 
 /-- the handler returned `Ok(st)` -/
-structure HDone (E : Str.Env) (content data : Bytes) (L1 : Bytes)
+structure HDone (K : RCtx) (content data : Bytes) (L1 : Bytes)
     (r : AReq) (h : HState) (e : Run.Env) : Prop where
   ws : h.writers = [none]
   mtx : e.mutex = none
-  log : e.tr.wlog = L1 ++ streamRecords 6 E.id data
-  fin : REnd E r e.tr.input
+  log : e.tr.wlog = L1 ++ streamRecords 6 K.E.id data
+  fin : REnd K r e.tr.input
   ev : rEvent content ∈ e.tr.events
 
 /-- Result of one poll of the handler. -/
-def HOut (E : Str.Env) (content data : Bytes) (st : ExitStatus) (L1 : Bytes) (e : Run.Env)
+def HOut (K : RCtx) (content data : Bytes) (st : ExitStatus) (L1 : Bytes) (e : Run.Env)
     (out : AReq × HState × Run.Env × HRes) : Prop :=
   TStep e.tr out.2.2.1.tr ∧ out.2.2.1.segs = e.segs ∧
   ((out.2.2.2 = .pending ∧ out.2.2.1.tr.woken = true ∧ ans out.2.2.1.tr < ans e.tr ∧
-      (HRead E content data st L1 out.1 out.2.1 out.2.2.1 ∨ HWrite E content data st L1 out.1 out.2.1 out.2.2.1)) ∨
-   (out.2.2.2 = .done (.ok st) ∧ HDone E content data L1 out.1 out.2.1 out.2.2.1))
+      (HRead K content data st L1 out.1 out.2.1 out.2.2.1 ∨ HWrite K content data st L1 out.1 out.2.1 out.2.2.1)) ∨
+   (out.2.2.2 = .done (.ok st) ∧ HDone K content data L1 out.1 out.2.1 out.2.2.1))
 
-theorem REnd.step {E : Str.Env} {r : AReq} {t t' : Transport} (h : REnd E r t.input)
-    (hi : t'.input = t.input) : REnd E r t'.input := by rw [hi]; exact h
+theorem REnd.step {K : RCtx} {r : AReq} {t t' : Transport} (h : REnd K r t.input)
+    (hi : t'.input = t.input) : REnd K r t'.input := by rw [hi]; exact h
 
-theorem write_phase {E : Str.Env} {content data : Bytes} {st : ExitStatus} {L1 : Bytes}
-    {r : AReq} {h : HState} {e : Run.Env} (hw : HWrite E content data st L1 r h e) (hb : Ben e.tr)
+theorem write_phase {K : RCtx} {content data : Bytes} {st : ExitStatus} {L1 : Bytes}
+    {r : AReq} {h : HState} {e : Run.Env} (hw : HWrite K content data st L1 r h e) (hb : Ben e.tr)
     {fuel : Nat} (hf : wcost data.length + 3 ≤ fuel) :
-    HOut E content data st L1 e (handlerPoll fuel r h e) := by
+    HOut K content data st L1 e (handlerPoll fuel r h e) := by
   obtain ⟨ops, sub, ws, pr⟩ := h
   obtain ⟨hops, hpr, ⟨w, L, sent, hws, hst, hlog, hL⟩, hlen, hfin, hev⟩ := hw
   simp only at hops hpr hws hst hL hlen
@@ -581,20 +606,20 @@ theorem write_phase {E : Str.Env} {content data : Bytes} {st : ExitStatus} {L1 :
   have hfu : wcost (restOf sub data).length + 3 ≤ fuel := by
     unfold wcost at hf ⊢
     omega
-  · rcases writeAll_run (id := E.id) r data [.dropW 0, .ret st] true (restOf sub data).length fuel sub w e L sent
+  · rcases writeAll_run (id := K.E.id) r data [.dropW 0, .ret st] true (restOf sub data).length fuel sub w e L sent
         (Nat.le_refl _) (by omega) hb hst hlog with
       ⟨w', e', rd', L', sent', d1, d2, d3, d4, d5, d6, d7, d8, d9, d10, d11⟩ |
       ⟨w', e', f', d1, d2, d3, d4, d5, d6, d7, d8, d9⟩
-    · show HOut E content data st L1 e (handlerPoll fuel r
+    · show HOut K content data st L1 e (handlerPoll fuel r
         { ops := wscript data st, sub := sub, writers := [some w], propagate := true } e)
       rw [show wscript data st = .writeAll 0 data :: [.dropW 0, .ret st] from rfl, d1]
       refine ⟨d7, d9, Or.inl ⟨rfl, d10, d11, Or.inr ⟨rfl, rfl, ⟨w', L', sent', rfl, d5, d3, ?_⟩, ?_, ?_, d7.mem_events hev⟩⟩⟩
-      · show L' ++ streamRecords 6 E.id rd' = _
+      · show L' ++ streamRecords 6 K.E.id rd' = _
         rw [d4, hL]
       · show rd'.length ≤ data.length
         omega
       · exact hfin.step d8
-    · show HOut E content data st L1 e (handlerPoll fuel r
+    · show HOut K content data st L1 e (handlerPoll fuel r
         { ops := wscript data st, sub := sub, writers := [some w], propagate := true } e)
       rw [show wscript data st = .writeAll 0 data :: [.dropW 0, .ret st] from rfl, d1]
       obtain ⟨f2, rfl⟩ : ∃ f2, f' = f2 + 2 := ⟨f' - 2, by omega⟩
@@ -609,23 +634,21 @@ theorem write_phase {E : Str.Env} {content data : Bytes} {st : ExitStatus} {L1 :
         rw [Transport.ev_wlog, d3, hL]
       · exact hfin.step d8
 
-theorem read_phase {E : Str.Env} {content data : Bytes} {st : ExitStatus} {L1 : Bytes}
-    {r : AReq} {h : HState} {e : Run.Env} (hr : HRead E content data st L1 r h e) (hb : Ben e.tr)
-    {fuel : Nat} (hf : content.length + wcost data.length + 6 ≤ fuel) :
-    HOut E content data st L1 e (handlerPoll fuel r h e) := by
+theorem read_phase {K : RCtx} {content data : Bytes} {st : ExitStatus} {L1 : Bytes}
+    {r : AReq} {h : HState} {e : Run.Env} (hr : HRead K content data st L1 r h e) (hb : Ben e.tr)
+    {fuel : Nat} (hf : K.cap / 32 + 3 * e.tr.input.length + wcost data.length + 12 ≤ fuel) :
+    HOut K content data st L1 e (handlerPoll fuel r h e) := by
   obtain ⟨ops, sub, ws, pr⟩ := h
   obtain ⟨hops, hws, hpr, ⟨remC, hacc, hi⟩, hm, hlog⟩ := hr
   simp only at hops hpr hws hacc
   subst hops hpr hws
-  have hrl : remC.length ≤ content.length := by
-    have := congrArg List.length hacc
-    simp only [List.length_append] at this
-    omega
-  show HOut E content data st L1 e (handlerPoll fuel r
+  have hrl := hi.remC_le
+  show HOut K content data st L1 e (handlerPoll fuel r
     { ops := .readAll :: [.open_ 6, .writeAll 0 data, .dropW 0, .ret st], sub := sub, writers := [],
       propagate := true } e)
-  rcases readAll_run (E := E) [.open_ 6, .writeAll 0 data, .dropW 0, .ret st] [] true (remC.length + 1) fuel r sub e
-      remC (by omega) (by omega) hb hi with
+  rcases readAll_run (K := K) [.open_ 6, .writeAll 0 data, .dropW 0, .ret st] [] true
+      (2 * (remC.length / 64) + 2 * e.tr.input.length + 2) fuel r sub e
+      remC 1 (by omega) (by omega) (fun h => by omega) hb hi with
     ⟨r', acc', e', remC', d1, d2, d3, d4, d5, d6, d7, d8, d9⟩ |
     ⟨r', e', f', d1, d2, d3, d4, d5, d6, d7, d8, d9, d10⟩
   · rw [d1]
@@ -638,14 +661,14 @@ theorem read_phase {E : Str.Env} {content data : Bytes} {st : ExitStatus} {L1 : 
     rw [if_neg (by simp [hwr, outputStreams, RT.stdout, RT.stderr])]
     have hstr : (s!"o=w{([] : List (Option Writer)).length}" : String) = "o=w0" := by decide
     rw [hstr]
-    show HOut E content data st L1 e (handlerPoll f2 r'
+    show HOut K content data st L1 e (handlerPoll f2 r'
         { ops := wscript data st, sub := .fresh,
           writers := [] ++ [some { rtype := 6, id := r'.sp.request.id }], propagate := true }
         ((e'.ev (rEvent content)).ev "o=w0"))
     have hs1 : TStep e.tr ((e'.ev (rEvent content)).ev "o=w0").tr :=
       (d9.trans (TStep.ev _ (isHS_rEvent _))).trans (TStep.ev _ (by decide))
-    have hid' : r'.sp.request.id = E.id := d3.sim.id
-    have hw : HWrite E content data st L1 r'
+    have hid' : r'.sp.request.id = K.E.id := d3.sim.id
+    have hw : HWrite K content data st L1 r'
         { ops := wscript data st, sub := .fresh,
           writers := [] ++ [some { rtype := 6, id := r'.sp.request.id }], propagate := true }
         ((e'.ev (rEvent content)).ev "o=w0") := by
